@@ -821,14 +821,14 @@ def _clean_stmt(st):
     return False
 
 
-def _always_leaves(block):
+def _exits_function(block):
     if not block:
         return False
     last = block[-1]
     if isinstance(last, (ast.Return, ast.Raise)):
         return True
     if isinstance(last, ast.If) and last.orelse:
-        return _always_leaves(last.body) and _always_leaves(last.orelse)
+        return _exits_function(last.body) and _exits_function(last.orelse)
     return False
 
 
@@ -837,8 +837,8 @@ def _skippable(st):
     if _clean_stmt(st):
         return True
     if isinstance(st, ast.If) and _clean_expr(st.test):
-        ok_body = _always_leaves(st.body) or all(_clean_stmt(x) for x in st.body)
-        ok_else = (not st.orelse) or _always_leaves(st.orelse) or all(_clean_stmt(x) for x in st.orelse)
+        ok_body = _exits_function(st.body) or all(_clean_stmt(x) for x in st.body)
+        ok_else = (not st.orelse) or _exits_function(st.orelse) or all(_clean_stmt(x) for x in st.orelse)
         return ok_body and ok_else
     return False
 
@@ -893,7 +893,7 @@ def _inline_read_aliases(fn):
                                 replaced += n0
                                 okb = descend(s_.body, 0)
                                 oke = descend(s_.orelse, 0) if s_.orelse else True
-                                if not ((okb or _always_leaves(s_.body)) and (oke or _always_leaves(s_.orelse))):
+                                if not ((okb or _exits_function(s_.body)) and (oke or _exits_function(s_.orelse))):
                                     return False
                                 if not _skippable(s_):
                                     return False
@@ -2104,8 +2104,13 @@ def _loop_local_names(g, own):
     by a nested function"""
     stores = {}
     targets = {}
+    comp_bound = set()          # comprehension variables live in a scope of their own
     for n in _own_walk(g):
-        if isinstance(n, ast.Name) and isinstance(n.ctx, (ast.Store, ast.Del)) and n.id in own:
+        if isinstance(n, ast.comprehension):
+            for t in ast.walk(n.target):
+                comp_bound.add(id(t))
+    for n in _own_walk(g):
+        if isinstance(n, ast.Name) and isinstance(n.ctx, (ast.Store, ast.Del)) and n.id in own and id(n) not in comp_bound:
             stores.setdefault(n.id, []).append(n)
         if isinstance(n, ast.For):
             for t in ast.walk(n.target):
@@ -2131,6 +2136,17 @@ def _loop_local_names(g, own):
             tn = {t.id for t in ast.walk(node.target) if isinstance(t, ast.Name)}
             for s_ in node.body + node.orelse:
                 walk(s_, active | tn)
+            return
+        if isinstance(node, _COMPS):
+            act = set(active)
+            for k_, gen in enumerate(node.generators):
+                walk(gen.iter, frozenset(act) if k_ else active)
+                act |= {t.id for t in ast.walk(gen.target) if isinstance(t, ast.Name)}
+                for c_ in gen.ifs:
+                    walk(c_, frozenset(act))
+            for fld in ("elt", "key", "value"):
+                if hasattr(node, fld):
+                    walk(getattr(node, fld), frozenset(act))
             return
         if isinstance(node, ast.Name) and isinstance(node.ctx, ast.Load) and node.id in cand and node.id not in active:
             bad.add(node.id)
